@@ -386,6 +386,30 @@ def c18_add(tier, seed):
                 _viol(r, "c18.duplicate-id-accepted", dict(w, taken=taken))
             except Exception:
                 pass
+    # a rule whose id names only a NESTED sub-proposition with the identical definition (sharing, no top-level clash):
+    # direct construction validates, so add() must accept and give the same configurator
+    for shared, base_rule in ((lambda: pg.Any("x", "y"), lambda sh: pg.Imply("a", sh, variable="I")),
+                              (lambda: pg.Any("x", "y", variable="S"), lambda sh: pg.Imply("a", sh, variable="I")),
+                              (lambda: pg.AtMost(1, ["x", "y", "z"], variable="S"), lambda sh: pg.All(sh, "b", variable="Q"))):
+        try:
+            direct = cc.StingyConfigurator(base_rule(shared()), cc.Any("p", "q", default=["p"], variable="D"), shared(), id="nested")
+            ok_direct = direct.errors() == []
+        except Exception:
+            ok_direct = False
+        if not ok_direct:
+            continue
+        base_cfg = cc.StingyConfigurator(base_rule(shared()), cc.Any("p", "q", default=["p"], variable="D"), id="nested")
+        r["evaluations"] += 1
+        r["_seen"].add(("nested-shared", str(shared().id)[:4]))
+        w = {"base": base_cfg.to_json(), "added": shared().to_json()}
+        try:
+            got = base_cfg.add(shared())
+        except Exception as e:
+            _viol(r, "c18.add-refuses-rule-that-direct-construction-accepts", w, error=repr(e)[:200])
+            continue
+        if got.to_text() != direct.to_text() or got.default_prios != direct.default_prios \
+                or got.ge_polyhedron.tolist() != direct.ge_polyhedron.tolist():
+            _viol(r, "c18.structure-differs", w, got=got.to_text(), want=direct.to_text())
     return _finish(r)
 
 
@@ -422,7 +446,7 @@ def c17_b64(tier, seed):
         cfg = cc.StingyConfigurator(
             cc.Xor(*xs, default=[xs[0]], variable="X") if k % 2 else cc.Any(*xs, default=[xs[1]], variable="X"),
             pg.Imply(xs[0], pg.Any("p", puan.variable("q", (0, 1)), variable="PQ"), variable="I"), *extra,
-            id="cfg%d" % k)
+            id=("cfg%d" % k) if k % 5 else puan.variable("cfg%d" % k, bounds=(1, 1)))     # every fifth: asserted by its own bounds
         # the configurator itself, packed after it has been queried, answers like the original
         if not extra:
             _ = cfg.ge_polyhedron
